@@ -97,6 +97,8 @@ def run(ctx, rep, tier):
     quick_names = {n_ for n_, _, _ in list(families("quick", ("octal", "digits", "words"))) + list(families("quick", ("any", "kwarg"))) +
                    list(families("quick", ("long",)))}
     not_decided = []
+    # the families of the quick tier first, then the thorough-only ones: the CPU budget then truncates the extras, never the core
+    fams = [f for f in fams if f[0] in quick_names] + [f for f in fams if f[0] not in quick_names]
     for name, spec, assume in fams:
         if only and name not in only.split(","):
             continue
